@@ -89,6 +89,9 @@ func solveQuery(cfg *SolverCfg, q *Query, file string, stats *solverStats) {
 	if quick > 6 {
 		quick = 6
 	}
+	if sec >= 120 {
+		quick = 60 // patient retry: the cheap configurations get a real chance first
+	}
 	if q.Cover && quick > 2 {
 		quick = 2
 	}
@@ -227,10 +230,56 @@ func solveAll(cfg *SolverCfg, obls []*Obligation, stats *solverStats) {
 	}
 	close(ch)
 	wg.Wait()
+	// patient pass: a query that ended without an answer (timeout / unknown / solver error) is not
+	// evidence of anything - on a loaded machine valid goals run out of wall-clock budget. Such
+	// queries (a bounded number of them) are re-run two at a time, when this process no longer
+	// competes with itself, with a much larger budget. Only what is still undecided then fails.
+	var undecided []job
+	for _, j := range jobs {
+		if j.q.Cover || j.o.ExpectSat || j.q.Verdict == "sat" || j.q.Verdict == "unsat" {
+			continue
+		}
+		undecided = append(undecided, j)
+	}
+	if len(undecided) > 0 && len(undecided) <= patientMax {
+		pcfg := *cfg
+		pcfg.Timeout = cfg.Timeout * patientFactor
+		pcfg.Cross = false
+		sem := make(chan struct{}, 2)
+		var pwg sync.WaitGroup
+		for _, j := range undecided {
+			j := j
+			pwg.Add(1)
+			sem <- struct{}{}
+			go func() {
+				defer pwg.Done()
+				defer func() { <-sem }()
+				if _, err := os.Stat(j.f); err != nil {
+					if err := os.WriteFile(j.f, []byte(j.q.SMT), 0o644); err != nil {
+						return
+					}
+				}
+				prev := j.q.Verdict
+				solveQuery(&pcfg, j.q, j.f, stats)
+				j.q.Solver += " (patient retry after " + prev + ")"
+				if j.q.Verdict == "sat" && len(j.q.Values) > 0 {
+					j.q.Model = getValues(j.f, j.q)
+				}
+			}()
+		}
+		pwg.Wait()
+	}
 	for _, o := range obls {
 		decide(o)
 	}
 }
+
+// patient pass limits: at most patientMax undecided queries are retried, each with
+// patientFactor times the normal per-query budget
+const (
+	patientMax    = 24
+	patientFactor = 8
+)
 
 func decide(o *Obligation) {
 	if o.Static {
